@@ -226,6 +226,7 @@ IDENTITY_LIKE = {
     "core::result::Result::transpose": (0,),
     "core::result::Result::and_then": (0, 1),
     "core::future::into_future::IntoFuture::into_future": (0,),
+    "core::future::future::Future::poll": (0,),
     "core::pin::Pin::new": (0,),
     "core::pin::Pin::new_unchecked": (0,),
     "tracing::instrument::Instrument::instrument": (0,),
